@@ -3,6 +3,7 @@ import Emerge.Proto
 import Emerge.Utf8
 import Emerge.Regex.Lang
 import Emerge.Regex.Follow
+import Emerge.Lexgen
 import Emerge.Gen.Regex
 /-
   Driver commands for the pattern model: parse outcome, the automaton of the model of the code
@@ -245,6 +246,26 @@ def cmdReAST (f : List String) : String :=
         joinWith ";" (groups.map fun (s, t, cs) => toString s ++ ">" ++ toString t ++ ":" ++ joinWith "," (rangesStr (sortNat cs)))
         ++ " states=" ++ toString st
     | o => outcomeStr s o
+  | _ => "BAD-ARGS"
+
+end Emerge.Driver
+
+namespace Emerge.Driver
+open Emerge Emerge.Lexgen
+
+/-- `winner <i:r|i:s,...|->`: the attribution rule of Spec.DFA for a state owned by the listed definitions -/
+def cmdWinner (f : List String) : String :=
+  match f with
+  | [os] =>
+    let owners : List Owner := if os == "-" then [] else
+      (os.splitOn ",").filterMap fun x =>
+        match x.splitOn ":" with
+        | [i, k] => some ⟨i.toNat!, k == "r"⟩
+        | _ => none
+    match winner owners with
+    | .none => "NONE"
+    | .term i => "TERM " ++ toString i
+    | .conflict is => "CONFLICT " ++ ",".intercalate (is.map toString)
   | _ => "BAD-ARGS"
 
 end Emerge.Driver
